@@ -122,7 +122,8 @@ func sentenceSet(tier string) []string {
 	}
 	// a few hand-written sentences with spaces / script / odd literals
 	out = append(out, `$[(@.length-1)]`, `$[ 0 , 1 ]`, `$[?( @.a == 'x' )]`, `$[?(@.a=~/[/)]`, `$[?(@.a==1.5e3)]`, `$['aA']`, `$["a\"b"]`, `a.b`, `*`, `['a']`, `$.a\.b`,
-		`$[?(@.a == True)]`, `$[?(@.a == NULL)]`, `$[?(@.a.b.c == $.x.y)]`, `$..[?(@.a)]..b`, `$[1:2:3,4,*]`, `$[?(@.a == "a\"b")]`)
+		`$[?(@.a == True)]`, `$[?(@.a == NULL)]`, `$[?(@.a.b.c == $.x.y)]`, `$..[?(@.a)]..b`, `$[1:2:3,4,*]`, `$[?(@.a == "a\"b")]`,
+		`[?(@.a)]`, `[?(@.a == 1)].b`, `[?(@.a[?(@.b)])]`, `[?(1 == @.a)]`, `..a`, `[0].a`)
 	return out
 }
 
